@@ -21,7 +21,18 @@
      (the addition of 0.0 is exact and carries no node).
    - results held in a float (Poisson, Zeta, Zipf) are returned as the integer they hold; Zeta
      returns -1 when the code returns +infinity.
-   - non-finite parameters (s = inf, n = inf for Zipf) are outside the model.               *)
+   - parameters are assumed valid (the constructor returns Ok); non-finite parameters (s = inf,
+     n = inf for Zipf) are outside the model; Hypergeometric is modelled for N < 2^51 (sfail 4
+     beyond) and its PopulationTooLarge error (initial_p underflowing to 0) is not modelled.
+   - float arithmetic on integer-valued (or half-integer-valued) operands below 2^51 is exact and is
+     carried out in Z (`zf (y + 1)`, `plus_half m`, ...) instead of through widened nodes.
+   - a uniform draw v that is exactly 0.0 makes `ln v` = -inf in BTPE regions 3/4 and in the H2PE
+     tails / squeeze; the code's behaviour on it (reject the proposal, resp. accept in the squeeze)
+     is modelled explicitly (`vz`) since -inf is not a value of the expression language.
+   - loops carry fuel (`sfail 2` on exhaustion): 64-256 for rejection loops, parameter-derived
+     counts for BINV (110 + 2), BTPE 5.1, HIN, H2PE 4.1 and fraction_of_products_of_factorials.
+   - failure code 3 marks the places where the code would panic (u64 underflow, f64_to_u64
+     assertion, 1 << 64, index out of range).                                                  *)
 From Coq Require Import ZArith List Bool.
 From RD Require Import Base.Expr Base.Run Model.Sampler Model.Continuous.
 Import ListNotations.
